@@ -102,6 +102,30 @@ pub fn run(ctx: &Ctx) -> CheckResult {
                     c.steps[0].argv[p + 1] = if c.steps[0].argv[p + 1] == "th18" { "th06".into() } else { "th18".into() };
                 }
             }));
+            env_cases.push(mk("output-is-the-script", &|c| {
+                if let Some(p) = arg_pos(c, "-o") {
+                    c.steps[0].argv[p + 1] = scen::SRC.into();
+                }
+            }));
+            env_cases.push(mk("output-given-twice", &|c| c.steps[0].argv.extend(["-o".to_string(), "second.bin".to_string()])));
+            env_cases.push(mk("game-given-twice", &|c| c.steps[0].argv.extend(["-g".to_string(), "th13".to_string()])));
+            env_cases.push(mk("debug-info-given-twice", &|c| c.steps[0].argv.extend(["--output-debug-info".to_string(), "a.json".to_string(), "--output-debug-info".to_string(), "b.json".to_string()])));
+            env_cases.push(mk("debug-info-path-is-the-output", &|c| c.steps[0].argv.extend(["--output-debug-info".to_string(), scen::OUT.to_string()])));
+            env_cases.push(mk("same-mapfile-twice", &|c| {
+                let ms: Vec<String> = c.steps[0].argv.iter().filter(|a| a.starts_with("mapfile-")).cloned().collect();
+                for m in ms {
+                    c.steps[0].argv.extend(["-m".to_string(), m]);
+                }
+            }));
+            env_cases.push(mk("script-given-as-dot-slash-and-absolute-mapfiles", &|c| {
+                for a in c.steps[0].argv.iter_mut() {
+                    if a == scen::SRC {
+                        *a = format!("./{}", scen::SRC);
+                    } else if a.starts_with("mapfile-") {
+                        *a = format!("{{ROOT}}/{}", a);
+                    }
+                }
+            }));
             env_cases.push(mk("unknown-flag", &|c| c.steps[0].argv.push("--no-such-flag".into())));
             env_cases.push(mk("extra-positional", &|c| c.steps[0].argv.push("stray".into())));
             env_cases.push(mk("debug-info-dir-missing", &|c| c.steps[0].argv.extend(["--output-debug-info".to_string(), "no/dir/d.json".to_string()])));
